@@ -93,7 +93,7 @@ RePool == { ReAdot, ReB, Plus(ClsT({97, 98}, FALSE, <<97, 98>>)), Alt(Chr(97), C
             Cat(Chr(97), Cat(AnyChar, Chr(98))), Plus(ClsT(97..99, FALSE, <<97, 45, 99>>)),
             \* inside a bracket expression a dot is a dot
             Cat(Chr(97), Cat(ClsT({46}, FALSE, <<46>>), Chr(98))), Plus(ClsT({97, 46}, FALSE, <<97, 46>>)) }
-StrDoc == Arr(<<S(<<>>), S(a_), S(b_), S(<<97, 98>>), S(<<98, 97>>), S(<<97, 98, 97, 98>>), S(<<97, 46, 98>>), S(c_), S(<<97, 120, 98>>),
+StrDoc == Arr(<<S(<<>>), S(a_), S(b_), S(<<97, 98>>), S(<<98, 97>>), S(<<97, 98, 97, 98>>), S(<<97, 46, 98>>), S(c_), S(<<97, 120, 98>>), S(<<120, 92, 34, 121>>),
                IntV(1), Null, Arr(<<S(a_)>>), Obj(<<s_>>, <<S(<<97, 98>>)>>), Obj(<<s_>>, <<IntV(1)>>), S(<<65, 66>>)>>)
 LenDoc == Arr(<<S(<<>>), S(<<233, 128512>>), Arr(<<>>), Arr(<<IntV(1), IntV(2), IntV(3)>>), Obj(<<>>, <<>>), Obj(<<a_, b_>>, <<IntV(1), IntV(2)>>),
                IntV(3), Null, Bool(TRUE), Obj(<<a_>>, <<Arr(<<IntV(1), IntV(2)>>)>>), Obj(<<a_>>, <<S(<<120, 121, 122>>)>>)>>)
@@ -118,6 +118,11 @@ QuerySet ==
          \cup {F(ECmp(op, OFn("length", <<At1(a_)>>), OLit(IntV(n)))) : op \in {"==", "!="}, n \in {2, 3}}
          \cup {F(ECmp("==", OFn("count", <<OQ(QAt(<<Child(SWild)>>))>>), OLit(IntV(n)))) : n \in {0, 2, 3}}
          \cup {F(ECmp("==", OFn("count", <<OQ(QAt(<<Descend(SWild)>>))>>), OLit(IntV(n)))) : n \in {0, 1, 3}}
+         \* a nodelist keeps a node it visits twice, and count() counts it twice
+         \cup {F(ECmp("==", OFn("count", <<OQ(QAt(<<Seg(FALSE, <<SName(a_), SName(a_)>>)>>))>>), OLit(IntV(n)))) : n \in {1, 2}}
+         \cup {F(ECmp("==", OFn("count", <<OQ(QAt(<<Seg(FALSE, <<SWild, SIndex(0)>>)>>))>>), OLit(IntV(n)))) : n \in {2, 4}}
+         \* a string literal with a backslash immediately followed by a double quote (either quote style has to read it)
+         \cup {F(ECmp(op, Self, OLit(S(<<120, 92, 34, 121>>)))) : op \in {"==", "!="}}
          \cup {F(ECmp("==", OFn("value", <<OQ(QAt(<<Child(SWild)>>))>>), OLit(IntV(1)))),
                F(ECmp("==", OFn("value", <<OQ(QAt(<<Child(SName(a_))>>))>>), OFn("value", <<OQ(QAt(<<Descend(SName(a_))>>))>>))),
                F(ECmp("==", OFn("length", <<OFn("value", <<OQ(QAt(<<Child(SName(a_))>>))>>)>>), OLit(IntV(2)))),
